@@ -689,6 +689,7 @@ func bulkBody(c *Ctx) (*ssa.Function, *ssa.MakeSlice) {
 // ruleBulkFrame: R02.c / R01.c.
 func ruleBulkFrame(c *Ctx, rid string) {
 	c.rule(rid, "bulk frame: the body buffer has exactly declared+2 bytes; the value returned is buf[0:declared]; the only content comparisons on the buffer are buf[declared] == CR and buf[declared+1] == LF (payload content never influences framing); the body is not read through the line reader")
+	nullOnlyForNegative(c, rid)
 	f, mk := bulkBody(c)
 	if f == nil {
 		// alternative: io.ReadFull/CopyN based body; look for the idiom instead
